@@ -65,13 +65,40 @@ def _worker(args):
     prop, tier, seed, modname, fname, case = args
     import importlib
 
+    import signal
+
     sub = Session(prop, tier=tier, seed=seed)
     t = time.time()
+    budget = int(float(os.environ.get("PYVC_CASE_BUDGET", 900 if tier == "quick" else 3600)))
+
+    class _Budget(KeyboardInterrupt):
+        pass
+
+    def _on_alarm(signum, frame):
+        raise _Budget()
+
+    old = None
+    try:
+        old = signal.signal(signal.SIGALRM, _on_alarm)
+        signal.alarm(budget)
+    except (ValueError, OSError):  # not the main thread of the process: no budget
+        old = None
     try:
         mod = importlib.import_module(modname)
         getattr(mod, fname)(sub, case)
+    except _Budget:
+        # on the unchanged tree every case finishes well inside the budget
+        sub.not_proved(f"{prop}/{fname}/{'-'.join(map(str, case))}/within-verified-subset",
+                       f"time budget of {budget}s exceeded while interpreting this case", function=f"{modname}.{fname}")
     except Exception:
         sub.crashed = f"case {case!r}: " + traceback.format_exc()
+    finally:
+        try:
+            signal.alarm(0)
+            if old is not None:
+                signal.signal(signal.SIGALRM, old)
+        except (ValueError, OSError):
+            pass
     return sub.export(), time.time() - t
 
 
@@ -166,3 +193,52 @@ def explore_parallel(ses, modname, fname, payload, processes=None, max_paths=300
         ses.not_proved(f"{payload.get('prop')}/{payload.get('unit')}/within-verified-subset", over,
                        function=payload.get("unit"))
     return n_paths
+
+
+def explore_parallel_multi(ses, modname, fname, payloads, processes=None, max_paths=300, budget_s=None):
+    """explore_parallel for several units at once (one pool): their path trees are independent, so the critical path of
+    the whole run is the longest unit instead of the sum"""
+    processes = processes or max(1, (os.cpu_count() or 2))
+    if processes <= 1 or os.environ.get("PYVC_SERIAL") or len(payloads) == 1:
+        return {p["unit"]: explore_parallel(ses, modname, fname, p, processes, max_paths, budget_s) for p in payloads}
+    budget_s = budget_s or float(os.environ.get("PYVC_UNIT_BUDGET", 900 if ses.tier == "quick" else 3600))
+    t_start = time.time()
+    counts = {p["unit"]: 0 for p in payloads}
+    over = {}
+    ctx = mp.get_context("fork")
+    with ctx.Pool(processes) as pool:
+        pending = [(p, pool.apply_async(_path_worker, ((modname, fname, p, []),))) for p in payloads]
+        while pending:
+            nxt = []
+            progressed = False
+            for p, job in pending:
+                if not job.ready():
+                    nxt.append((p, job))
+                    continue
+                progressed = True
+                export, final, dec, _ = job.get()
+                ses.absorb(export)
+                counts[p["unit"]] += 1
+                if p["unit"] in over:
+                    continue
+                for i in range(len(dec), len(final)):
+                    nxt.append((p, pool.apply_async(_path_worker, ((modname, fname, p, final[:i] + [False]),))))
+            pending = nxt
+            for p in payloads:
+                u = p["unit"]
+                if u in over:
+                    continue
+                if time.time() - t_start > budget_s:
+                    over[u] = f"time budget of {budget_s:.0f}s exceeded after {counts[u]} paths"
+                elif counts[u] + sum(1 for q, _ in pending if q["unit"] == u) > max_paths:
+                    over[u] = f"more than {max_paths} paths"
+            if over and all(p["unit"] in over for p in payloads):
+                pool.terminate()
+                break
+            if over:
+                pending = [(q, j) for q, j in pending if q["unit"] not in over]
+            if not progressed:
+                time.sleep(0.02)
+    for u, why in over.items():
+        ses.not_proved(f"{ses.prop}/{u}/within-verified-subset", why, function=u)
+    return counts
